@@ -34,7 +34,7 @@ ELPts == {<<x, y, 3>> : x \in {1, 2, 3, 4, 5, 7}, y \in {1, 2, 3, 4, 5}}
 ELEvents == UNION {[1..n -> ELPts] : n \in 0..MaxN}
 ELForms == {ChForm("list", <<1, 2>>, <<0, 0>>), ChForm("list", <<2, 1>>, <<1, 0>>), ChForm("list", <<1, 2>>, <<1, 1>>),
             ChForm("list", <<1>>, <<0>>), ChForm("list", <<1, 2, 3>>, <<0, 0, 0>>), ChForm("list", <<1, 2>>, <<2, 2>>)}
-ELParams == {<<3, 3, 2, 1>>, <<3, 3, 1, 2>>, <<3, 3, 2, 2>>, <<4, 2, 4, 1>>, <<3, 3, 1, 1>>}
+ELParams == {<<3, 3, 2, 1>>, <<3, 3, 1, 2>>, <<3, 3, 2, 2>>, <<4, 2, 4, 1>>, <<3, 3, 1, 1>>, <<3, 3, 16, 2>>, <<2, 3, 1, 256>>}   \* incl. axes whose squares exceed 8 / 16 bits
 ELNext == \/ Pick(0, ELEvents) \/ Pick(1, Containers)
           \/ stage = 2 /\ \E f \in ELForms : (Named(f) => scn[2] \in {"sample", "sample-float-be"}) /\ scn' = Append(scn, f) /\ stage' = 3 /\ UNCHANGED out
           \/ Pick(3, ELParams)
